@@ -15,21 +15,22 @@ inductive All2 {α β : Type} (R : α → β → Prop) : List α → List β →
   | nil : All2 R [] []
   | cons {a b as bs} : R a b → All2 R as bs → All2 R (a :: as) (b :: bs)
 
-/-- positional value of a digit string, most significant first (`none` if some character is not an
-ASCII digit). Defined from the least significant end. -/
-def digitsValueRev : List Char → Option Nat
-  | [] => some 0
-  | c :: cs =>
-    match digitVal c, digitsValueRev cs with
-    | some d, some n => some (n * 10 + d)
-    | _, _ => none
+/-- value of a string of ASCII digits read as a decimal numeral (`none` if some character is not a
+digit): each further digit multiplies what was read so far by ten. -/
+def digitsValue (cs : List Char) : Option Nat :=
+  cs.foldl (fun acc c =>
+    match acc, digitVal c with
+    | some n, some d => some (n * 10 + d)
+    | _, _ => none) (some 0)
 
 /-- A decimal string: optional sign, at least one digit; its value. -/
 def decimalValue (cs : List Char) : Option Int :=
   match cs with
-  | '+' :: ds => if ds = [] then none else (digitsValueRev ds.reverse).map Int.ofNat
-  | '-' :: ds => if ds = [] then none else (digitsValueRev ds.reverse).map (fun n => - Int.ofNat n)
-  | ds => if ds = [] then none else (digitsValueRev ds.reverse).map Int.ofNat
+  | [] => none
+  | c :: ds =>
+    if c = '+' then (if ds = [] then none else (digitsValue ds).map Int.ofNat)
+    else if c = '-' then (if ds = [] then none else (digitsValue ds).map (fun n => - Int.ofNat n))
+    else (digitsValue (c :: ds)).map Int.ofNat
 
 /-- The number a configuration value *states*: an integer states itself, a decimal string states its
 value (as far as a Go `int` can hold it); anything else (malformed string, bool, float, nil, list, map)
